@@ -130,6 +130,73 @@ pub fn record(args: &[String]) {
         n += 1;
         let _ = i;
     }
+    // crowded boards: several leapers and sliders of one colour among many of their own men (a leaper
+    // whose every target square is taken by its own side included); the whole attack map is logged
+    let crowded = arg_u64(args, "--crowded", cases / 2);
+    for _ in 0..crowded {
+        let colour = if rng.chance(1, 2) { Color::White } else { Color::Black };
+        let mut b = [0u8; 64];
+        let put = |b: &mut [u8; 64], sq: usize, p: Piece, c: Color| {
+            if b[sq] == 0 && !(matches!(p, Piece::Pawn) && (sq < 8 || sq >= 56)) {
+                b[sq] = code(p, c);
+                true
+            } else {
+                false
+            }
+        };
+        put(&mut b, rng.below(64), Piece::King, colour);
+        loop {
+            if put(&mut b, rng.below(64), Piece::King, colour.opposite()) {
+                break;
+            }
+        }
+        let knights = 2 + rng.below(4);
+        let mut ksq = vec![];
+        for _ in 0..knights {
+            let q = rng.below(64);
+            if put(&mut b, q, Piece::Knight, colour) {
+                ksq.push(q);
+            }
+        }
+        // box some of the knights in with their own men
+        for &q in &ksq {
+            if rng.chance(1, 2) {
+                let (f, r) = ((q % 8) as i32, (q / 8) as i32);
+                for (df, dr) in [(1, 2), (2, 1), (-1, 2), (-2, 1), (1, -2), (2, -1), (-1, -2), (-2, -1)] {
+                    let (ff, rr) = (f + df, r + dr);
+                    if ff >= 0 && ff < 8 && rr >= 0 && rr < 8 && !rng.chance(1, 12) {
+                        let p = [Piece::Pawn, Piece::Pawn, Piece::Bishop, Piece::Rook, Piece::Knight][rng.below(5)];
+                        let t = (rr * 8 + ff) as usize;
+                        if !put(&mut b, t, p, colour) {
+                            put(&mut b, t, Piece::Bishop, colour);
+                        }
+                    }
+                }
+            }
+        }
+        for _ in 0..rng.below(10) {
+            let p = [Piece::Pawn, Piece::Bishop, Piece::Rook, Piece::Queen, Piece::Knight][rng.below(5)];
+            let c = if rng.chance(1, 2) { colour } else { colour.opposite() };
+            put(&mut b, rng.below(64), p, c);
+        }
+        let r = guarded(|| {
+            let mut board = Board::new();
+            for q in 0..64 {
+                if b[q] != 0 {
+                    let (p, c) = piece_of_code(b[q]);
+                    board.put(bb(q as u32 + 1), p, c).unwrap();
+                }
+            }
+            let mut gen = MoveGenerator::with_cache_capacity(4);
+            squares_of(gen.get_attack_targets(&board, colour))
+        });
+        let bv: Vec<u8> = b.to_vec();
+        match r {
+            Ok(att) => writeln!(file, "{}", json!({"t": "attackmap", "b": bv, "white": colour == Color::White, "att": att})).unwrap(),
+            Err(p) => writeln!(file, "{}", json!({"t": "panic-geometry", "pos": {"b": bv, "turn": 1, "rights": 0, "ep": 0}, "where": format!("get_attack_targets on a crowded board: {}", p)})).unwrap(),
+        }
+        n += 1;
+    }
     file.flush().unwrap();
     println!("{}", json!({"records": n}));
 }
